@@ -14,6 +14,12 @@ CLAIMED = {
  "C03": ("explicit-state search over statement sequences inside a victim transaction ended by explicit or conflict abort, differential snapshot before Begin / after Abort, on the real database, per index kind",
          "For each of four index kinds and two seeds every statement sequence (<=2, thorough <=3) over insert / in-place, growing(relocating), shrinking, key-changing update / delete / same row twice inside the victim, ended by an explicit abort or by a lock conflict with a reading transaction, preceded by a committed statement and followed by committed inserts re-using the space, is run on the real engine; full scan plus every index point/range answer before Begin must equal the answers after Abort.",
          "hash index without UPDATE and reached through the plan API, unique index without duplicate keys, indexed varchar <= 700 bytes (declared limitations)", "§4 C03"),
+ "C04": ("explicit-state search over all statement-granularity interleavings of 2-3 transaction programs (Engine A) + preemption-bounded schedule enumeration of real goroutines running the statements under a controlled scheduler (Engine C), against a row model with per-transaction pending images",
+         "Part A: every interleaving of two transactions x <=2 statements (thorough: 3 statements / 3 transactions) over 9 statement shapes (reads by sequential scan, index point, index range; insert, deletes, in-place / key-changing / growing-relocating updates), every commit/abort outcome: a statement of a non-aborted transaction must return the model answer over committed data + own pending writes; a write hitting a row with another transaction's pending change must abort. Part B: 7 (thorough 10) two/three-goroutine scenarios, every schedule with <=2 (thorough 3) preemptions at lock/latch granularity: answers and final table must be explainable by a serial order of the committed transactions (unique written values).",
+         "aborts are always acceptable; atomics are not scheduling points; RW-latches modelled without writer preference; conflict-directed preemption points", "§4 C04"),
+ "C05": ("as C04: statement-granularity interleavings (Engine A) + preemption-bounded schedules of real goroutines (Engine C); oracle = brute force over serial orders of the committed transactions",
+         "Programs that cannot create phantoms (reads by key through point/range/scan path, writes to the non-key column of rows addressed by key, unique written values): every statement-granularity interleaving of 2 transactions x <=2 (thorough 3; 3 transactions x 2) statements, and every schedule with <=2 (thorough 3) preemptions of lost-update / write-skew / repeatable-read / range-read-vs-writer scenarios run as real goroutines: some serial order of the committed transactions must reproduce all their reads and the final table.",
+         "as C04", "§4 C05"),
  "C06": ("bounded-exhaustive input enumeration on the real SQL path: all predicate trees up to 2 (thorough 3) leaves x adversarial and all small table contents x select lists x DML forms, every cost-minimal plan (plan-choice hook), against a row model",
          "For three schemas (INT/INT, INT/FLOAT, INT/VARCHAR): adversarial contents (duplicates, boundary integers, -0.0/denormal/huge floats, empty/quoted/600-byte strings, 2-page table) with ALL predicate trees over = <> < <= > >= AND/OR up to the leaf bound, plus all multisets of <=2 (thorough <=3) rows with all single-leaf predicates and a stride of the deeper ones; every select list; UPDATE with every SET order, DELETE, single/multi-row and reordered-column INSERT, adversarial literal forms. Each statement is executed on the real engine under every cost-minimal plan and compared with the row model.",
          "supported subset as stated in the evidence file (column op constant, no NULL through SQL, no ORDER BY); statistics in their initial state", "§4 C06"),
